@@ -92,6 +92,11 @@ func Generate(property, tier string, seed uint64, idx uint64) *Trace {
 		if r.Chance(0.2) {
 			m := add(Node{Kind: "multi", Parent: -1, Subs: r.Range(1, 3)})
 			opNodes = append(opNodes, m, m)
+			for lv := 0; lv < 2 && r.Chance(0.5); lv++ {
+				// cache multistores stacked on it (CacheMultiStore() of a cache multistore), built before anything is used
+				m = add(Node{Kind: "multi", Parent: m, Subs: tr.Nodes[m].Subs})
+				opNodes = append(opNodes, m, m)
+			}
 		}
 	} else {
 		// C16: prefix / gas / trace over 0-2 cache wrappers
